@@ -672,6 +672,55 @@ def judge_output(out, val, pos, col, cache):
     return recs
 
 
+def twin_of(val):
+    """a constant that compares equal to val in Python but has another type (None if there is none)"""
+    t = val['t']
+    try:
+        if t == 'int' and abs(int(val['v'])) < 2 ** 53:
+            return {'t': 'float', 'v': repr(float(int(val['v'])))} if int(val['v']) not in (0, 1) or True else None
+        if t == 'bool':
+            return {'t': 'int', 'v': int(bool(val['v']))}
+        if t == 'float':
+            f = float(val['v'])
+            if math.isfinite(f) and f == int(f) and abs(f) < 2 ** 53:
+                return {'t': 'int', 'v': int(f)}
+    except (ValueError, OverflowError):
+        return None
+    return None
+
+
+def twin_check(val, tw):
+    from mindsdb_sql.parser import ast
+    I = ast.Identifier
+    out_recs = []
+    for out in [('to_string',)] + [(n, 'get_string') for n in SA_NAMES]:
+        a = render(out, val, 'where')
+        b = render(out, tw, 'where')
+        stmt = ast.Select(targets=[I('c1')], from_table=I('t1'),
+                          where=ast.BinaryOperation('and', args=[
+                              ast.BinaryOperation('=', args=[I('c2'), make_node(tw)]),
+                              ast.BinaryOperation('=', args=[I('c1'), make_node(val)])]))
+        try:
+            c = _render(out, stmt)
+        except RecursionError:
+            raise
+        except Exception as e:
+            c = {'exc': e}
+        if any('exc' in x or not isinstance(x.get('text'), str) for x in (a, b, c)):
+            continue
+        if a['path'] != c['path'] or 'c1 = ' not in a['text'] or 'c1 = ' not in b['text']:
+            continue
+        lit_val = a['text'].split('c1 = ', 1)[1]
+        lit_twin = b['text'].split('c1 = ', 1)[1]
+        want = a['text'].split('c1 = ', 1)[0] + 'c2 = ' + lit_twin + ' AND c1 = ' + lit_val
+        norm = lambda t: ' '.join(t.split())
+        if norm(c['text']) != norm(want):
+            out_recs.append(findings.record('literal-depends-on-other-constants', out[0], ['type:' + val['t']],
+                                            {'target': out[0]}, f'alone: {a["text"]!r}; twin alone: {b["text"]!r}; '
+                                            f'together: {c["text"]!r}; expected {want!r}', c['text']))
+    return out_recs
+
+
 def judge(case, col):
     val, pos = case['val'], case['pos']
     why = in_domain(val, pos)
@@ -684,6 +733,13 @@ def judge(case, col):
     cache = {}
     for out in outputs_for(pos):
         recs.extend(judge_output(out, val, pos, col, cache))
+    # metamorphic clause: the spelling of a literal must not depend on the other constants of the statement
+    # (a value-equal constant of another type earlier in the statement: 1 / 1.0 / TRUE)
+    if pos == 'where':
+        tw = twin_of(val)
+        if tw is not None:
+            classes.append('twin-judged')
+            recs.extend(twin_check(val, tw))
     if hostile:
         classes.append('nontrivial')
     key = (val['t'], val.get('v'), val.get('node'), pos)
